@@ -2,7 +2,8 @@
    (CR and CRLF included, since the text a reader delivers is CR-folded), a comment is one COMMENT token, and the
    tokens behind the gap do not depend on how the gap was spelled. *)
 From InfluxQL Require Import Base.Prelude Lex.Token Lex.Reader Lex.Scanner Proofs.LexerSafety.
-From InfluxQL Require Import Lex.StreamLex Proofs.RingAt Proofs.RingRefine Proofs.StreamTile Proofs.LexTiling.
+From InfluxQL Require Import Lex.StreamLex.
+From InfluxQL Require Import Proofs.RingAt Proofs.RingRefine Proofs.StreamTile Proofs.LexTiling.
 
 Definition ws_text (w : text) : Prop := Forall (fun x => is_whitespace x = true) w.
 
@@ -35,22 +36,22 @@ Lemma s_scan_all_step f t tok lit t' : s_scan ulower t = ((tok, lit), t') -> tok
 Proof. intros E Hne. cbn [s_scan_all]. rewrite E. destruct tok; try reflexivity. contradiction. Qed.
 
 (* readers that deliver the same text produce the same tokens and literals from there on *)
-Theorem same_text_same_tokens f r1 r2 t : at_ r1 t -> at_ r2 t -> r_n r1 <= 2 -> r_n r2 <= 2 ->
+Theorem same_text_same_tokens T1 T2 f r1 r2 t : at_ T1 r1 t -> at_ T2 r2 t -> r_n r1 <= 2 -> r_n r2 <= 2 ->
   map tl_of (fst (scan_all ulower f r1 [])) = map tl_of (fst (scan_all ulower f r2 [])).
 Proof.
-  intros H1 H2 N1 N2. rewrite (ring_scan_all ulower f r1 t [] H1 N1), (ring_scan_all ulower f r2 t [] H2 N2). reflexivity.
+  intros H1 H2 N1 N2. rewrite (ring_scan_all ulower T1 f r1 t [] H1 N1), (ring_scan_all ulower T2 f r2 t [] H2 N2). reflexivity.
 Qed.
 
 (* two spellings of one gap: each scans as WS followed by the same tokens *)
-Theorem gap_spelling f r1 r2 c1 w1 c2 w2 d rest :
-  at_ r1 (c1 :: w1 ++ d :: rest) -> at_ r2 (c2 :: w2 ++ d :: rest) -> r_n r1 <= 2 -> r_n r2 <= 2 ->
+Theorem gap_spelling T1 T2 f r1 r2 c1 w1 c2 w2 d rest :
+  at_ T1 r1 (c1 :: w1 ++ d :: rest) -> at_ T2 r2 (c2 :: w2 ++ d :: rest) -> r_n r1 <= 2 -> r_n r2 <= 2 ->
   is_whitespace c1 = true -> is_whitespace c2 = true -> ws_text w1 -> ws_text w2 -> is_whitespace d = false -> d <> 0 ->
   exists tail,
     map tl_of (fst (scan_all ulower (S f) r1 [])) = (WS, c1 :: w1) :: tail /\
     map tl_of (fst (scan_all ulower (S f) r2 [])) = (WS, c2 :: w2) :: tail.
 Proof.
   intros H1 H2 N1 N2 C1 C2 W1 W2 Hd Hd0. exists (map fst (s_scan_all ulower f (d :: rest))).
-  rewrite (ring_scan_all ulower (S f) r1 _ [] H1 N1), (ring_scan_all ulower (S f) r2 _ [] H2 N2).
+  rewrite (ring_scan_all ulower T1 (S f) r1 _ [] H1 N1), (ring_scan_all ulower T2 (S f) r2 _ [] H2 N2).
   rewrite (s_scan_all_step f _ _ _ _ (s_scan_gap c1 w1 d rest C1 W1 Hd Hd0) ltac:(discriminate)).
   rewrite (s_scan_all_step f _ _ _ _ (s_scan_gap c2 w2 d rest C2 W2 Hd Hd0) ltac:(discriminate)).
   split; reflexivity.
@@ -92,8 +93,8 @@ Qed.
 (* a block comment flanked by whitespace in place of plain whitespace: WS COMMENT WS instead of WS, and the same
    tokens and literals behind.  The parser's ScanIgnoreWhitespace skips all three; where it looks at raw runes
    instead (regex look-ahead, known finding C16-comment-lookahead) the comment is not skipped. *)
-Theorem comment_in_gap f r1 r2 c1 w1 b c3 w3 c2 w2 d rest :
-  at_ r1 (c1 :: w1 ++ 47 :: 42 :: b ++ 42 :: 47 :: c3 :: w3 ++ d :: rest) -> at_ r2 (c2 :: w2 ++ d :: rest) ->
+Theorem comment_in_gap T1 T2 f r1 r2 c1 w1 b c3 w3 c2 w2 d rest :
+  at_ T1 r1 (c1 :: w1 ++ 47 :: 42 :: b ++ 42 :: 47 :: c3 :: w3 ++ d :: rest) -> at_ T2 r2 (c2 :: w2 ++ d :: rest) ->
   r_n r1 <= 2 -> r_n r2 <= 2 ->
   is_whitespace c1 = true -> is_whitespace c2 = true -> is_whitespace c3 = true -> ws_text w1 -> ws_text w2 -> ws_text w3 ->
   block_body b -> is_whitespace d = false -> d <> 0 ->
@@ -102,7 +103,7 @@ Theorem comment_in_gap f r1 r2 c1 w1 b c3 w3 c2 w2 d rest :
     map tl_of (fst (scan_all ulower (S f) r2 [])) = (WS, c2 :: w2) :: tail.
 Proof.
   intros H1 H2 N1 N2 C1 C2 C3 W1 W2 W3 Hb Hd Hd0. exists (map fst (s_scan_all ulower f (d :: rest))).
-  rewrite (ring_scan_all ulower _ r1 _ [] H1 N1), (ring_scan_all ulower (S f) r2 _ [] H2 N2).
+  rewrite (ring_scan_all ulower T1 _ r1 _ [] H1 N1), (ring_scan_all ulower T2 (S f) r2 _ [] H2 N2).
   rewrite (s_scan_all_step _ _ _ _ _ (s_scan_gap c1 w1 47 _ C1 W1 ltac:(reflexivity) ltac:(lia)) ltac:(discriminate)).
   rewrite (s_scan_all_step _ _ _ _ _ (s_scan_block_comment b _ Hb) ltac:(discriminate)).
   rewrite (s_scan_all_step _ _ _ _ _ (s_scan_gap c3 w3 d rest C3 W3 Hd Hd0) ltac:(discriminate)).
